@@ -133,3 +133,180 @@ hdwallet::verif_harness! {
         core::mem::forget(got);
     }
 }
+
+// ================================================================================= C12 / C18: `cmd::new::run`, single-threaded
+// The generation command with its environment as recorders: `Mnemonic::random` hands out mnemonics tagged 1, 2, ... (or fails),
+// `AccountOptions::private_key` notes which mnemonic / password / account selector it is asked about (or fails),
+// `PrivateKey::address` returns a symbolic address for the first candidate and a matching one for the second (so the search ends
+// within the bound), `Mnemonic::to_phrase` renders a mnemonic as its tag and `std::io::_print` formats what it is given (real
+// `format!`) and keeps the first byte. Decided per query (configuration concrete, everything else symbolic):
+//   * what is printed is the mnemonic whose selected account's address matched the prefix (the first candidate iff its address
+//     matches, else the second), searched under the --vanity-password / --vanity-account-index / --vanity-hd-path given;
+//   * a failing entropy request (first or later) or a failing key derivation is an error and NOTHING is printed;
+//   * without a prefix exactly one mnemonic is generated and printed.
+static mut RND_CALLS: usize = 0;
+static mut RND_FAIL_AT: usize = 0; // 0 = never
+static mut RND_LEN_OK: bool = true;
+static mut PK_CALLS2: usize = 0;
+static mut PK_TAG: [u8; 4] = [0; 4];
+static mut PK_OPTS_OK: bool = true;
+static mut PK_FAIL_AT: usize = 0;
+static mut ADDR_CALLS: usize = 0;
+static mut ADDR_FIRST: [u8; 20] = [0; 20];
+static mut PRINTS: usize = 0;
+static mut PRINTED: u8 = 0;
+static mut WANT_LEN: usize = 0;
+static mut WANT_INDEX: usize = 0;
+static mut WANT_HD: bool = false;
+
+// Mnemonics are told apart through the public API only: a mnemonic "tagged k" has the entropy length 11 * k, which
+// `mnemonic_length()` reports as 8 * k + 1. The offset of the (private) length field is found by probing.
+const MSIZE: usize = core::mem::size_of::<Mnemonic>();
+fn mnemonic_with_len_byte(offset: usize, value: u8) -> Mnemonic {
+    let mut raw = [0u8; MSIZE];
+    raw[offset] = value;
+    unsafe { core::mem::transmute::<[u8; MSIZE], Mnemonic>(raw) }
+}
+fn len_offset() -> usize {
+    let mut o = 0;
+    while o + 8 <= MSIZE {
+        if mnemonic_with_len_byte(o, 11).mnemonic_length() == 9 {
+            return o;
+        }
+        o += 8;
+    }
+    panic!("length field of Mnemonic not found");
+}
+fn tag_of(m: &Mnemonic) -> u8 {
+    ((m.mnemonic_length() - 1) / 8) as u8
+}
+fn random_stub(_language: Language, length: usize) -> Result<Mnemonic> {
+    unsafe {
+        RND_CALLS += 1;
+        if length != WANT_LEN { RND_LEN_OK = false; }
+        if RND_FAIL_AT == RND_CALLS {
+            return Err(anyhow::Error::msg("entropy source failed"));
+        }
+        assert!(RND_CALLS <= 3);
+        Ok(mnemonic_with_len_byte(len_offset(), 11 * RND_CALLS as u8))
+    }
+}
+impl AccountOptions {
+    pub(crate) fn __verif_private_key_new(&self) -> Result<hdwallet::account::PrivateKey> {
+        unsafe {
+            assert!(PK_CALLS2 < 4, "search longer than the harness bound");
+            PK_TAG[PK_CALLS2] = tag_of(&self.mnemonic);
+            PK_CALLS2 += 1;
+            if !(self.password.len() == 2 && self.password.as_bytes()[0] == b'p' && self.password.as_bytes()[1] == b'w') { PK_OPTS_OK = false; }
+            if self.account_index != WANT_INDEX { PK_OPTS_OK = false; }
+            if self.hd_path.is_some() != WANT_HD { PK_OPTS_OK = false; }
+            if PK_FAIL_AT == PK_CALLS2 {
+                return Err(anyhow::Error::msg("derivation failed"));
+            }
+            hdwallet::account::PrivateKey::new([0x11; 32])
+        }
+    }
+}
+fn address_stub(_key: &hdwallet::account::PrivateKey) -> Address {
+    unsafe {
+        ADDR_CALLS += 1;
+        if ADDR_CALLS == 1 {
+            let a: [u8; 20] = kani::any();
+            ADDR_FIRST = a;
+            Address(a)
+        } else {
+            // the second candidate matches (0xab...): the search ends within the bound
+            let mut a = [0u8; 20];
+            a[0] = 0xab;
+            Address(a)
+        }
+    }
+}
+fn to_phrase_stub(m: &Mnemonic) -> String {
+    let mut s = String::with_capacity(4);
+    s.push((b'0' + tag_of(m)) as char);
+    s
+}
+fn print_fmt_stub(args: core::fmt::Arguments<'_>) {
+    let text = std::fmt::format(args);
+    unsafe {
+        PRINTS += 1;
+        PRINTED = if text.len() > 0 { text.as_bytes()[0] } else { 0 };
+    }
+    core::mem::forget(text);
+}
+
+fn run_body<const VANITY: bool, const HD: bool>() {
+    let length: usize = kani::any();
+    let index: usize = kani::any();
+    unsafe {
+        RND_FAIL_AT = kani::any();
+        PK_FAIL_AT = kani::any();
+        kani::assume(RND_FAIL_AT <= 3 && PK_FAIL_AT <= 3);
+        WANT_LEN = length;
+        WANT_INDEX = index;
+        WANT_HD = HD;
+    }
+    let options = Options {
+        length,
+        language: Language::default(),
+        vanity_prefix: if VANITY { Some(Prefix { bytes: vec![0xab], nibble: None }) } else { None },
+        vanity_password: "pw".to_string(),
+        vanity_account_index: index,
+        vanity_hd_path: if HD { Some("m/1".to_string()) } else { None },
+        vanity_threads: 0,
+    };
+    let got = run(options);
+    unsafe {
+        assert!(RND_LEN_OK, "mnemonic generated with a length other than the requested one");
+        let first_matches = ADDR_FIRST[0] == 0xab;
+        // expected course of events
+        let mut expect_err = RND_FAIL_AT == 1;
+        let mut expect_tag = 1u8;
+        if VANITY && !expect_err {
+            if PK_FAIL_AT == 1 {
+                expect_err = true;
+            } else if !first_matches {
+                if RND_FAIL_AT == 2 || PK_FAIL_AT == 2 {
+                    expect_err = true;
+                }
+                expect_tag = 2;
+            }
+        }
+        kani::cover!(!expect_err && expect_tag == 1, "first candidate printed");
+        kani::cover!(!VANITY || (!expect_err && expect_tag == 2), "second candidate printed");
+        kani::cover!(expect_err, "failure");
+        kani::cover!(!VANITY || (RND_FAIL_AT == 2 && !first_matches), "entropy failure at a later request of the search");
+        if expect_err {
+            assert!(got.is_err(), "entropy or derivation failure swallowed");
+            assert!(PRINTS == 0, "a phrase was printed although generation failed");
+        } else {
+            assert!(got.is_ok(), "generation failed without cause");
+            assert!(PRINTS == 1, "exactly one phrase is printed");
+            assert!(PRINTED == b'0' + expect_tag, "the printed phrase is not the one whose account matched the prefix");
+            if VANITY {
+                assert!(PK_OPTS_OK, "the search did not use the given vanity password / account index / path");
+                assert!(PK_TAG[0] == 1 && (expect_tag == 1 || PK_TAG[1] == 2), "a candidate other than the generated one was examined");
+                assert!(RND_CALLS == expect_tag as usize, "number of entropy requests");
+            } else {
+                assert!(RND_CALLS == 1 && PK_CALLS2 == 0, "plain generation: exactly one entropy request, no key derivation");
+            }
+        }
+    }
+    core::mem::forget(got);
+}
+macro_rules! run_harness {
+    ($($name:ident = ($v:expr, $h:expr);)*) => {$(
+        hdwallet::verif_harness_realfmt! {
+            #[kani::stub(hdwallet::mnemonic::Mnemonic::random, random_stub)]
+            #[kani::stub(hdwallet::mnemonic::Mnemonic::to_phrase, to_phrase_stub)]
+            #[kani::stub(crate::cmd::AccountOptions::private_key, crate::cmd::AccountOptions::__verif_private_key_new)]
+            #[kani::stub(hdwallet::account::PrivateKey::address, address_stub)]
+            #[kani::stub(std::io::_print, print_fmt_stub)]
+            #[kani::stub(std::backtrace::Backtrace::capture, hdwallet::__verif_common::backtrace_capture_stub)]
+            #[kani::unwind(13)]
+            fn $name() { run_body::<$v, $h>() }
+        }
+    )*};
+}
+run_harness! { c12_run_plain = (false, false); c18_run_vanity_index = (true, false); c18_run_vanity_hd_path = (true, true); }
